@@ -46,6 +46,12 @@ Use(u, x) ==
       [] u = "wherelen" -> Seq2(Ref("Len3"), PyVar(x))
          \* `e where p` with a literal e directly as the element of a repetition: a rejected element is not consumed
       [] u = "whererep" -> Seq2(Star(Where(Rgx(Cls(<<a, b>>)), Lam("ne", x))), Rgx(RxStarG(Cls(<<a, b, semi, bang, eqs>>))))
+         \* <| whose function side can fail while its argument side cannot
+      [] u = "applylo" -> Seq2(Opt(ApplyL(Right(Str(<<eqs>>), Lam("pair", x)), Star(Rgx(Cls(<<a, b>>))))),
+                               Rgx(RxStarG(Cls(<<a, b, semi, bang, eqs>>))))
+         \* <| with inline Python as function and a compound argument that fails after consuming, as element of a repetition
+      [] u = "applyrep" -> Seq2(Star(ApplyL(Lam("pair", x), Seq2(Str(<<eqs>>), Rgx(Cls(<<a, b>>))))),
+                                Rgx(RxStarG(Cls(<<a, b, semi, bang, eqs>>))))
       [] u = "count"   -> Rep(Str(<<b>>), Nm(x), Nm(x))
       [] u = "lengt"   -> Where(W2, Lam("lengt", x))
       [] u = "tmpl"    -> Call("Echo", <<Pos(Ref(x))>>)
@@ -54,7 +60,7 @@ Use(u, x) ==
          \* the name is mentioned inside a compound argument (which the generator moves into a helper function)
       [] u = "argwhere" -> Right(Str(<<eqs>>), Call("Id", <<Pos(Where(W2, Lam("eq", x)))>>))
 
-Uses == {"whereeq", "value", "list", "apply", "applyl", "applylc", "wherelen", "whererep", "count", "lengt", "tmpl", "tmplkw", "wherene", "argwhere"}
+Uses == {"whereeq", "value", "list", "apply", "applyl", "applylc", "applylo", "applyrep", "wherelen", "whererep", "count", "lengt", "tmpl", "tmplkw", "wherene", "argwhere"}
 
 Src(u, w) == IF u = "count" THEN Wd ELSE w      \* a count needs a number
 
